@@ -479,6 +479,37 @@ def coq_kdoc(d: list) -> str:
     return coq_list(els)
 
 
+KEYWORD_PROBES = ['int', 'Int', 'INT', 'element', 'Element', 'elementid', 'ElementID', 'elementid_array', 'int_array', 'INT_ARRAY',
+                  'Float_Array', '_array', 'int_array_array', 'string', 'vmatrix', 'qangle_array', 'DmElement', 'T', '', 'integer',
+                  'vector5', 'boolean', 'time ', ' int', 'İnt', 'ınt', 'ſtring', 'ELEMENTİD', 'bınary', 'color_Array', 'color_arraY',
+                  'x_array', 'element_arrays', 'quaternion', 'Vector2', 'VECTOR4_ARRAY', 'elementid ', 'ﬂoat']
+
+
+def corr_keyword_predicate(ck: Ck) -> None:
+    """Fmt/DmxKv2.v type_is_keyword (the tests the KV2 parser makes on a type token) vs dmx._kv2_type_is_keyword."""
+    from srctools import dmx
+    fn = getattr(dmx, '_kv2_type_is_keyword', None)
+    if fn is None:
+        ck.notes.append('dmx._kv2_type_is_keyword does not exist: predicate correspondence skipped (obligation kv2_keyword_typed_elements_written_at_root decides)')
+        return
+    probes = list(KEYWORD_PROBES)
+    for _ in range(ck.budget(60, 600)):
+        base = ck.rng.choice([v.value for v in dmx.ValueType] + ['elementid', 'foo', 'Dm'])
+        s_ = ''.join(ck.rng.choice([c.upper(), c, c]) for c in base) + ck.rng.choice(['', '', '_array', '_ARRAY', '_arrays', ' '])
+        probes.append(s_)
+    want = [bool(fn(s_)) for s_ in probes]
+    vals = ck.coq_eval(IMPORTS_KV2, ['map (type_is_keyword gen_fold gen_vtnames) ' + coq_list(_cps(s_) for s_ in probes)], name='kwpred',
+                       preamble='Import ListNotations. Open Scope N_scope.')
+    got = None if vals is None else [x.strip() == 'true' for x in vals[0].strip('[] ').split(';')]
+    ok = got == want
+    ck.count('keyword_predicate_probes', len(probes))
+    ck.obligation('correspondence:kv2-keyword-predicate', ok,
+                  f'{len(probes)} type names: Fmt/DmxKv2.v type_is_keyword vs dmx._kv2_type_is_keyword'
+                  + ('' if ok else f': first difference {next((p_ for p_, a, b_ in zip(probes, got or [], want) if a != b_), None)!r}'))
+    if not ok:
+        ck.tie_broken.append('correspondence KV2 keyword predicate')
+
+
 def corr_kv2(ck: Ck) -> None:
     """Fmt/DmxKv2.v writer and parser (on the regenerated tokenizer tables) vs export_kv2(flat=True) and parse_kv2:
     the model's text equals the exported text after the header line, and the model's parse of that text equals the
@@ -839,6 +870,7 @@ OBLIGATIONS = {
     'kv2_array_reference_table_ok': 'rtable_ok gen_ref_array',
     'kv2_reference_tables_agree': 'rtables_agree gen_ref_scalar gen_ref_array',
     'kv2_stubs_written_by_reference': 'stub_by_reference gen_ref_scalar && stub_by_reference gen_ref_array',
+    'kv2_keyword_typed_elements_written_at_root': 'kv2_keyword_types_at_root',
     'kv2_tokenizer_tables_ok': 'kv2_tables_ok gen_tables',
     'kv2_tokenizer_options_ok': 'kv2_opts_ok gen_kv2_opts',
     'kv2_type_keywords_stable': 'kv2_type_keywords_stable',
@@ -863,6 +895,7 @@ EXPLAIN = {
     'instance:kv2_reference_tables_agree': ['kv2', 'stub'],
     'instance:kv2_stubs_written_by_reference': ['kv2', 'stub'],
     'correspondence:kv2-flat-text': ['kv2', ''],
+    'instance:kv2_keyword_typed_elements_written_at_root': ['kv2', 'element-type-is-value-type-name'],
     'instance:time_rounds_to_nearest_tick': ['binary', 'time'],
     'instance:time_scale_written_is_scale_read': ['binary', 'time'],
     'instance:matrix_cells_read_where_written': ['binary', 'matrix'],
@@ -919,6 +952,7 @@ def run(ck: Ck) -> None:
         corr_scalar(ck)
         corr_binary(ck)
         corr_kv2(ck)
+        corr_keyword_predicate(ck)
         corr_kv1(ck)
     search_graphs(ck)
     search_kv1(ck)
